@@ -178,6 +178,12 @@ def shard_main(pid, specfile, outfile):
             ctx.feature('ambient_python_O_shards')
         else:
             ctx.inconclusive_because('pyopt shard is not running with assertions disabled')
+    if spec.get('clocale'):
+        import locale
+        if locale.getpreferredencoding(False).lower().replace('-', '') in ('utf8',):
+            ctx.inconclusive_because('clocale shard is running with a UTF-8 locale encoding')
+        else:
+            ctx.feature('ambient_non_utf8_locale_shards')
     try:
         if spec.get('__replay__'):
             mod.replay(unjson(spec['case']), ctx)
@@ -208,6 +214,9 @@ def _run_one(pid, spec, timeout, workdir, idx):
     if spec.get('pyopt'):
         # the properties do not depend on interpreter flags: some shards run with assertions compiled out
         env['PYTHONOPTIMIZE'] = '1'
+    if spec.get('clocale'):
+        # nor on the locale: some shards run where the locale's encoding is ASCII (POSIX locale, UTF-8 mode off)
+        env.update({'LC_ALL': 'C', 'LANG': 'C', 'PYTHONUTF8': '0', 'PYTHONCOERCECLOCALE': '0'})
     cmd = [sys.executable, '-c',
            'import sys; from vf.core import shard_main; shard_main(*sys.argv[1:])',
            pid, specfile, outfile]
@@ -308,6 +317,13 @@ def run_check(pid, tier, seed):
             if s.get('kind') in kinds and not s.get('pyopt'):
                 specs.append(dict(s, pyopt=True, ambient_copy=True))
                 break
+    kinds = getattr(mod, 'CLOCALE_KINDS', None)
+    if kinds is not None:
+        # and one under the POSIX locale without UTF-8 mode (the locale's text encoding is ASCII there)
+        for s in specs:
+            if s.get('kind') in kinds and not s.get('pyopt') and not s.get('clocale'):
+                specs.append(dict(s, clocale=True, ambient_copy=True))
+                break
     for i, s in enumerate(specs):
         s.setdefault('name', 'shard%d' % i)
         s.setdefault('seed', derive(seed, pid, tier, i))
@@ -332,8 +348,10 @@ def run_check(pid, tier, seed):
         for lvl in ('normal', 'debug', 'quiet'):
             if merged['features'].get('ambient_verbosity_' + lvl, 0) < 1:
                 missed.append('no shard ran at %s verbosity' % lvl)
-        if any(s.get('ambient_copy') for s in specs) and merged['features'].get('ambient_python_O_shards', 0) < 1:
+        if any(s.get('pyopt') for s in specs) and merged['features'].get('ambient_python_O_shards', 0) < 1:
             missed.append('no shard ran under python -O')
+        if any(s.get('clocale') for s in specs) and merged['features'].get('ambient_non_utf8_locale_shards', 0) < 1:
+            missed.append('no shard ran under a non-UTF-8 locale')
     if n_unlisted:
         verdict = 'violated'
     elif merged['inconclusive'] or missed:
